@@ -75,6 +75,13 @@ def apply(doc, muts):
             cands = [(c, k) for c, k in slots if isinstance(c[k], list) and c[k]]
         elif op == 'bad_string':
             cands = [(c, k) for c, k in slots if isinstance(c[k], str) and k != '<class>']
+            # strings the parser interprets are preferred over free text
+            # pick the *key* uniformly first, so that rare keys ('injected?', 'instance_name', ...)
+            # are hit as often as frequent ones ('name', 'direction')
+            keys = sorted({k for _c, k in cands if isinstance(k, str)})
+            if keys and m['at'] % 4:
+                chosen = keys[(m['at'] // 11) % len(keys)]
+                cands = [(c, k) for c, k in cands if k == chosen]
         elif op == 'dup':
             cands = [(c, k) for c, k in slots if isinstance(c, list)]
         elif op == 'retype_class':
@@ -95,7 +102,7 @@ def apply(doc, muts):
         elif op == 'empty_list' and isinstance(val, list):
             cont[key] = []
         elif op == 'bad_string' and isinstance(val, str):
-            cont[key] = val + 'x'
+            cont[key] = val + ['x', '%', '%s', ' ', '{0}', '\n', '%(a)s', 'X'][(m['at'] // 5) % 8]
         elif op == 'dup' and isinstance(cont, list):
             cont.insert(key, copy.deepcopy(val))
         elif op == 'retype_class':
